@@ -29,4 +29,98 @@ def McBox.performBiasUpdate (s : McBox α) (nu : Nat → Row α) (step : Nat →
 def McSx.performBiasUpdate (s : McSx α) (nu : Nat → Row α) (step : Nat → α) : McSx α :=
   s.addDeltaLinear (biasDelta nu s.b.P s.b.labels step)
 
+/-! ### `BiasSolver::solve`: the Rprop rule as a state machine
+
+    stepsize = 0.01, prev = 0, step = 0 (value-initialised)
+    do {
+        QpSolver(problem).solve(stop);  problem.unshrink();  if (type != QpAccuracyReached) break;
+        while (true) {
+            grad = 0;  for i, p: if (solutionGradient(i,p) > 0) for entries b of nu.row(label(i)*cardP+p): grad(index) -= value;
+            if (sumToZero) grad -= sum(grad)/classes;
+            for c: { if (g > 0) step(c) = -stepsize(c); else if (g < 0) step(c) = stepsize(c);
+                     if (prev(c)*grad(c) > 0) stepsize(c) *= 1.2; else stepsize(c) *= 0.5; }
+            prev = grad;  if (sumToZero) step -= sum(step)/classes;
+            bias += step;  performBiasUpdate(step, nu);
+            if (max(stepsize) < 0.01*minAccuracy) break;
+        }
+    } while (problem.checkKKT() > minAccuracy);
+
+Both loops have data-dependent termination: the model takes fuel and reports when it ran out. -/
+
+structure RpropSt (α : Type) where
+  bias : Nat → α
+  stepsize : Nat → α
+  prev : Nat → α
+  step : Nat → α
+
+/-- `sum(v)` of a vector of length `k` (left to right) -/
+def vsumK (k : Nat) (v : Nat → α) : α := (List.range k).foldl (fun acc c => acc + v c) (0.0 : α)
+
+/-- `max(v)` of a vector of length `k` -/
+def vmaxK (k : Nat) (v : Nat → α) : α := (List.range k).foldl (fun acc c => cmax acc (v c)) (v 0)
+
+/-- the variable that holds `(dataset example i, p)` -/
+def McBox.varOf (s : McBox α) (i p : Nat) : Nat :=
+  match (List.range s.n).find? (fun e => (s.ex e).index == i) with
+  | some e => (s.ex e).var p
+  | none => 0
+
+/-- the writes `grad(index) -= value` of the bias-gradient loop of `BiasSolver::solve`, in program order -/
+def biasGradWrites (s : McBox α) (nu : Nat → Row α) : List (Nat × α) :=
+  (List.range s.n).flatMap fun i => (List.range s.P).flatMap fun p =>
+    if s.grad (s.varOf i p) > (0.0 : α) then (nu (s.labels i * s.P + p)).entries else []
+
+/-- one pass through the body of the Rprop loop: new problem state and new Rprop state -/
+def rpropPass (s : McBox α) (nu : Nat → Row α) (classes : Nat) (sumToZero : Bool) (r : RpropSt α) : McBox α × RpropSt α :=
+  let g0 : Nat → α := McBox.applySubs (fun _ => (0.0 : α)) (biasGradWrites s nu)
+  let grad : Nat → α := if sumToZero then (let m := vsumK classes g0 / (classes : α); fun c => g0 c - m) else g0
+  let step1 : Nat → α := fun c =>
+    if grad c > (0.0 : α) then -(r.stepsize c) else if grad c < (0.0 : α) then r.stepsize c else r.step c
+  let stepsize' : Nat → α := fun c =>
+    if r.prev c * grad c > (0.0 : α) then r.stepsize c * (1.2 : α) else r.stepsize c * (0.5 : α)
+  let step : Nat → α := if sumToZero then (let m := vsumK classes step1 / (classes : α); fun c => step1 c - m) else step1
+  (s.performBiasUpdate nu step,
+   { bias := fun c => r.bias c + step c, stepsize := stepsize', prev := grad, step := step })
+
+/-- the Rprop loop; the Boolean reports that the fuel ran out -/
+def rpropLoop (norm : McBox α → McBox α) (normR : RpropSt α → RpropSt α) (nu : Nat → Row α) (classes : Nat) (sumToZero : Bool) (eps : α) :
+    Nat → McBox α → RpropSt α → McBox α × RpropSt α × Bool
+  | 0, s, r => (s, r, true)
+  | fuel + 1, s, r =>
+    let q := rpropPass s nu classes sumToZero r
+    let s' := norm q.1
+    let r' := normR q.2
+    if vmaxK classes r'.stepsize < (0.01 : α) * eps then (s', r', false)
+    else rpropLoop norm normR nu classes sumToZero eps fuel s' r'
+
+/-- result of `BiasSolver::solve`: problem, Rprop state, total iterations, stop type of the last inner solve,
+fuel exhausted -/
+structure BiasResult (α : Type) where
+  s : McBox α
+  r : RpropSt α
+  iterations : Nat
+  stop : StopType
+  outOfFuel : Bool
+
+/-- the outer `do … while(checkKKT() > eps)` -/
+def biasSolveLoop (norm : McBox α → McBox α) (normR : RpropSt α → RpropSt α) (nu : Nat → Row α) (classes : Nat) (sumToZero : Bool) (eps : α)
+    (maxIter innerFuel : Nat) : Nat → McBox α → RpropSt α → Nat → BiasResult α
+  | 0, s, r, it => { s := s, r := r, iterations := it, stop := .running, outOfFuel := true }
+  | fuel + 1, s, r, it =>
+    let sol := solveLoopWith norm eps maxIter { s := s, iter := 0, shrinkCounter := 0, stop := .running }
+    let s1 := norm sol.s.unshrink
+    let it' := it + sol.iter
+    if sol.stop ≠ .accuracy then { s := s1, r := r, iterations := it', stop := sol.stop, outOfFuel := false }
+    else
+      let q := rpropLoop norm normR nu classes sumToZero eps innerFuel s1 r
+      if q.2.2 then { s := q.1, r := q.2.1, iterations := it', stop := sol.stop, outOfFuel := true }
+      else if q.1.checkKKT > eps then biasSolveLoop norm normR nu classes sumToZero eps maxIter innerFuel fuel q.1 q.2.1 it'
+      else { s := q.1, r := q.2.1, iterations := it', stop := sol.stop, outOfFuel := false }
+
+/-- `BiasSolver(problem).solve(bias, stop, nu, sumToZero, &prop)` -/
+def biasSolve (norm : McBox α → McBox α) (normR : RpropSt α → RpropSt α) (s : McBox α) (nu : Nat → Row α) (classes : Nat) (sumToZero : Bool)
+    (bias0 : Nat → α) (eps : α) (maxIter outerFuel innerFuel : Nat) : BiasResult α :=
+  biasSolveLoop norm normR nu classes sumToZero eps maxIter innerFuel outerFuel s
+    { bias := bias0, stepsize := fun _ => (0.01 : α), prev := fun _ => (0.0 : α), step := fun _ => (0.0 : α) } 0
+
 end SharkVerif.Mc
